@@ -42,7 +42,7 @@ def main(argv=None):
         chk = report.Check(pid, args.tier, repo, mod.EXPLANATION,
                            mod.NOT_DECIDED, mod.ASSUMPTIONS)
         from pgsa import sweeps as _sw
-        _sw.static_binding(chk, repo)
+        _sw.static_binding(chk, repo, scope=_sw.BINDING_SCOPE.get(pid))
         mod.run(chk, repo, args.tier)
         if args.tier == 'thorough':
             from pgsa import sweeps
